@@ -208,9 +208,11 @@ fn explore_script(idx: usize, entry: &Value, depth: usize, max_dfs: usize, rando
     let mut seen: std::collections::HashMap<u64, usize> = std::collections::HashMap::new();
     let mut firsts: Vec<(Value, u64)> = vec![];
     let mut k: u64 = 0;
+    let mut max_cp: usize = 0;
     let mut emit = |r: &ShellResult, kind: &str, out: &mut Out| {
         let run = (idx as u64) * 1_000_000 + k;
         k += 1;
+        max_cp = max_cp.max(r.choices.len());
         let rec = record(r);
         let mut lines: Vec<String> = vec![];
         for b in &rec.batches {
@@ -264,7 +266,13 @@ fn explore_script(idx: usize, entry: &Value, depth: usize, max_dfs: usize, rando
         v["mult"] = json!(mult);
         out.summary.push(v.to_string());
     }
-    out.summary.push(json!({"script": idx, "dfs_runs": n, "dfs_exhausted": exhausted, "random_runs": random}).to_string());
+    // all schedules were enumerated iff the depth-first search ran out of
+    // alternatives and no run had more choice points than the search depth
+    out.summary.push(
+        json!({"script": idx, "dfs_runs": n, "dfs_exhausted": exhausted, "random_runs": random,
+               "max_choice_points": max_cp, "all_schedules": exhausted && max_cp <= depth})
+        .to_string(),
+    );
 }
 
 pub fn explore(args: &[String]) -> i32 {
